@@ -322,6 +322,10 @@ class BitEval:
             if rc == 0 and not isinstance(rc, bool):
                 a = self.ev(l, depth + 1)
                 return self._bool(a, negate=isinstance(e.ops[0], ast.Eq))
+            if rc == 1 and not isinstance(rc, bool) and isinstance(e.ops[0], (ast.Eq, ast.NotEq)):
+                a = self.ev(l, depth + 1)
+                if all(x == 0 for x in a.lanes[1:]):          # a one-bit value: a == 1 is the bit itself
+                    return self._bool(a, negate=isinstance(e.ops[0], ast.NotEq))
         if isinstance(e, ast.IfExp):
             t = self.ev(e.test, depth + 1)
             if t.is_const():
